@@ -54,7 +54,8 @@ HintOf(st, ln) ==
           THEN [tid |-> ln.outC[pubIdx].tid, mid |-> 0]
        ELSE NoHint
 
-Obs(ln) == [outC |-> ln.outC, outB |-> ln.outB, bclosed |-> ln.bclosed, ended |-> ln.ended,
+\* wasEnded: run() had already returned at the previous line of this trace
+Obs(ln, wasEnded) == [wasEnded |-> wasEnded, outC |-> ln.outC, outB |-> ln.outB, bclosed |-> ln.bclosed, ended |-> ln.ended,
             st |-> ln.st, nbuf |-> ln.nbuf, pend |-> ln.pend, reg |-> ln.reg, leaked |-> ln.leaked,
             bjunk |-> ln.bjunk, now |-> ln.now]
 
@@ -87,7 +88,7 @@ Consume ==
              ELSE
                 \* bound variables (not LET) so that TLC evaluates each value once
                 \E s2 \in {Step(s, ev, HintOf(s, ln))} :
-                \E o \in {Obs(ln)} :
+                \E o \in {Obs(ln, l > 1 /\ Trace[l - 1].tr = ln.tr /\ Trace[l - 1].ended)} :
                 \E mine \in {UNION {CheckOf(p, s, ev, o, s2, obsLastB) : p \in Range(Props)}} :
                 \E ds \in {Desync(s, ev, o, s2)} :
                    /\ s' = s2
